@@ -680,6 +680,8 @@ type ltxFile struct {
 	path     string
 }
 
+var faultOnly bool
+
 func historyCases(seed int64, hi int, workDir string, pool *ltxPool, thorough bool) (rs recs, err error) {
 	r := NewRand(seed)
 	dir := filepath.Join(workDir, fmt.Sprintf("h%d", hi))
@@ -717,7 +719,7 @@ func historyCases(seed int64, hi int, workDir string, pool *ltxPool, thorough bo
 	rs.define("tr", truth)
 	rs.define("l", h.layoutSx(-1, -1))
 	emit(-1, -1, 0, h.class+"/full/latest")
-	for T := int64(1); T <= h.maxTick+1; T++ {
+	for T := int64(1); T <= h.maxTick+1 && !faultOnly; T++ {
 		emit(-1, -1, T, h.class+"/full/ts")
 	}
 
@@ -820,6 +822,10 @@ func historyCases(seed int64, hi int, workDir string, pool *ltxPool, thorough bo
 				os.Chtimes(p, fi.ModTime(), fi.ModTime())
 			}
 		}
+	}
+
+	if faultOnly {
+		return rs, nil
 	}
 
 	// any one segment removed
@@ -1569,6 +1575,7 @@ func cmdV3(args []string) error {
 	hseed := fl.Int64("hseed", 0, "with -hist: the seed of that history (instead of deriving it from -seed)")
 	replay := fl.String("replay", "", "case file whose listing-level inputs are re-run on the implementation")
 	workers := fl.Int("workers", 8, "histories generated in parallel")
+	fl.BoolVar(&faultOnly, "faultonly", false, "only the download-fault jobs of every history (C10 on the legacy path)")
 	if err := fl.Parse(args); err != nil {
 		return err
 	}
@@ -1629,7 +1636,7 @@ func cmdV3(args []string) error {
 		}
 		flush(cw, results[i])
 	}
-	if *only < 0 {
+	if *only < 0 && !faultOnly {
 		r := NewRand(master.Int63())
 		tiny, err := tinyDatabase(workDir)
 		if err != nil {
